@@ -43,6 +43,7 @@ RULE = (
 ASSUMPTIONS = [
     "feed unit ids unique; baseline unit ids unique; feed postal codes are config states; votes are non-negative integers (int64 or float64 columns); results_turnout >= results_dem + results_gop; feed rows complete",
     "which units an enabled outlier model flags is observed from the run (a recording wrapper around the handler's model-fitting method, or the returned categories if that method is not called); the statement does not define the outlier model's own decision and nothing is asserted about the rows it was fitted on (C10 / F12)",
+    "an outlier category requires more than 20 baseline units at or above the threshold, counted over ALL such units: a necessary condition that holds whether or not the code counts blocklisted / zero-baseline units (the statement does not say which count); the generator puts both counts on 19/20/21/22",
     "the turnout factor compared with the limits is the IEEE double quotient results_weights / baseline_weights",
     "a feed row that is not in the baseline is 'unexpected' even if its id or state is blocklisted",
     "residuals are compared only where the denominator (baseline + 1) is not zero (baseline margin == -1 is skipped)",
